@@ -15,6 +15,56 @@ open WV WV.Gen WV.C16
 @[simp] theorem sendIfConnected_eq (s : St) : sendIfConnected s = s.outConn := by
   simp [sendIfConnected, Flags.send_if_connected_ignores_pause]
 
+@[simp] theorem andThen_pure (r : Res) : (r.andThen fun x => (x, none)) = r := by
+  obtain ⟨s, e⟩ := r; cases e <;> rfl
+
+/-! ### `send_ping` / `_send_ping_reset_timer`: either the drawn id is not outstanding and the ping is
+    registered, or `AssertionError` and nothing but the random source has changed -/
+
+/-- simp normal form: in terms of the three fields the random source and the assert read, so that the
+    record updates of the other fields fall away -/
+@[simp] theorem pingId_eq (s : St) : pingId s = drawOf s.draws s.nextPing := rfl
+@[simp] theorem freshNext_eq (s : St) : freshNext s = !hasId s.pings (drawOf s.draws s.nextPing) := rfl
+@[simp] theorem outstanding_eq (s : St) (id : Nat) : outstanding s id = hasId s.pings id := rfl
+
+/-- the state after `send_ping` has registered (and `send_if_connected` perhaps written) the ping -/
+def pinged (s : St) : St :=
+  { s with draws := s.draws.tail, nextPing := max s.nextPing (pingId s + 1),
+           pings := s.pings ++ [{ id := pingId s, sent := s.now, wire := s.outConn }],
+           lastPing := s.now,
+           wireLog := match s.outConn with
+             | some c => s.wireLog ++ [(c, pingId s, s.now)]
+             | none => s.wireLog }
+
+theorem sendPing_eq (s : St) :
+    sendPing s = if freshNext s = true then (pinged s, none) else (afterDraw s, some .assertionError) := by
+  have e : outstanding (afterDraw s) (pingId s) = hasId s.pings (drawOf s.draws s.nextPing) := rfl
+  simp only [sendPing, e, freshNext_eq]
+  by_cases h : hasId s.pings (drawOf s.draws s.nextPing) = true
+  · simp [h]
+  · simp [h, pinged, afterDraw]
+    cases s.outConn <;> rfl
+
+/-- `_send_ping_reset_timer` when no timer is pending (the expiry callback has just cleared it / a new
+    connection): a fresh id ⇒ ping registered and the timer armed one interval ahead; a duplicate id ⇒
+    `AssertionError` and NO timer -/
+theorem sprt_none {T : Nat} {s : St} (htm : s.timer = none) :
+    sendPingResetTimer (Cfg.real T) s =
+      if freshNext s = true then ({ pinged s with timer := some (s.now + T) }, none)
+      else (afterDraw s, some .assertionError) := by
+  simp only [sendPingResetTimer, sendPing_eq]
+  split
+  · simp [pinged, htm]
+  · rfl
+
+theorem sprt_ok {T : Nat} {s s' : St} (htm : s.timer = none)
+    (h : sendPingResetTimer (Cfg.real T) s = (s', none)) :
+    freshNext s = true ∧ s' = { pinged s with timer := some (s.now + T) } := by
+  rw [sprt_none htm] at h
+  split at h
+  · rename_i hf; simp at h; exact ⟨hf, h.symm⟩
+  · simp at h
+
 /-- Manager states in which a connection is in use (`_connection` set) -/
 def inUse : Manager.State → Bool
   | .CONNECTED | .ABANDONING | .STOPPING => true
@@ -43,6 +93,11 @@ theorem inv_init (T : Nat) : Inv T init := by
   constructor <;> simp [init, inUse, Manager.init]
 
 theorem inv_flow {T : Nat} {s : St} (b : Bool) (hi : Inv T s) : Inv T { s with outPaused := b } := by
+  obtain ⟨h1, h2, h3, h4, h5, h6, h7, h8, h9, h10, h11, h12, h13⟩ := hi
+  constructor <;> assumption
+
+/-- the monitor's invariant does not mention the random source -/
+theorem inv_draws {T : Nat} {s : St} (l : List Nat) (hi : Inv T s) : Inv T { s with draws := l } := by
   obtain ⟨h1, h2, h3, h4, h5, h6, h7, h8, h9, h10, h11, h12, h13⟩ := hi
   constructor <;> assumption
 
